@@ -479,6 +479,7 @@ func (fb *fnBounds) postFacts(in ssa.Instruction) []constraint {
 			// one of a known set of in-module functions: the object invariants hold again for every
 			// object handed to it (they are properties of the type, re-established by every function)
 			if _, ok := bp.dynTargets(t); ok {
+				done := map[ssa.Value]bool{}
 				for _, a := range dynArgs(t) {
 					pt, ok := a.Type().Underlying().(*types.Pointer)
 					if !ok {
@@ -488,9 +489,32 @@ func (fb *fnBounds) postFacts(in ssa.Instruction) []constraint {
 					if n == nil {
 						continue
 					}
+					done[a] = true
 					for _, c := range bp.invCandidates(n) {
 						if bp.cand[c.key()] {
 							cs = append(cs, fb.invConstraint(c, a, t, true))
+						}
+					}
+				}
+				// the target may have been bound to an object of this function when it was made a value
+				// (t.parseAnd handed to a combinator): for a type whose fields are only ever written through
+				// a function's own parameters and locals, every function re-establishes the invariant of
+				// whatever object it wrote, so it holds again for every object in scope here
+				for _, T := range bp.structTypes() {
+					if !bp.writtenThroughBasesOnly(T) {
+						continue
+					}
+					for _, base := range fb.basesOf(T) {
+						if done[base] {
+							continue
+						}
+						if bi, ok := base.(ssa.Instruction); ok && !fb.dominatesInstr(bi, t) {
+							continue
+						}
+						for _, c := range bp.invCandidates(T) {
+							if bp.cand[c.key()] {
+								cs = append(cs, fb.invConstraint(c, base, t, true))
+							}
 						}
 					}
 				}
@@ -1264,4 +1288,45 @@ func hasBoundsObligation(fn *ssa.Function) bool {
 		}
 	}
 	return false
+}
+
+
+// writtenThroughBasesOnly: every store to a field of T in the module goes through a parameter or a local
+// allocation of the storing function (never through a pointer loaded from elsewhere, a free variable or a
+// global), so the invariant check at that function's returns covers the object that was written.
+func (bp *boundsProver) writtenThroughBasesOnly(T *types.Named) bool {
+	if bp.basesOnly == nil {
+		bp.basesOnly = map[*types.Named]bool{}
+	}
+	if v, ok := bp.basesOnly[T]; ok {
+		return v
+	}
+	res := true
+	for _, pk := range bp.p.Pkgs {
+		for _, f := range bp.p.AllModuleFuncs(pk) {
+			for _, b := range f.Blocks {
+				for _, in := range b.Instrs {
+					st, ok := in.(*ssa.Store)
+					if !ok {
+						continue
+					}
+					fa, ok := st.Addr.(*ssa.FieldAddr)
+					if !ok {
+						continue
+					}
+					pt, ok := fa.X.Type().Underlying().(*types.Pointer)
+					if !ok || !types.Identical(pt.Elem(), T) {
+						continue
+					}
+					switch fa.X.(type) {
+					case *ssa.Parameter, *ssa.Alloc:
+					default:
+						res = false
+					}
+				}
+			}
+		}
+	}
+	bp.basesOnly[T] = res
+	return res
 }
